@@ -111,6 +111,7 @@ int run_case(Reader& r, bool& nontrivial, std::string& desc) {
         int i = (int)r.below(3), j = (int)r.below(3), k = (int)r.below(3);
         uint32_t kind = r.below(34);
         std::string ctx = sfmt("op#%d kind=%u i=%d j=%d", op, kind, i, j);
+        { static const char* kn[] = {"construct","assign","append","append-cstr","plus","repeat","equals","equalsNoCase","contains","startsEnds","count","find","at","subString","subString2","fromTill","split","replace-char","replace","lowerCase","printable","pad","copyToBuffer","size","StrCmp","StrNCpy","StrStr","ToLower-MemCmp","AtoI-AtoU","int-formatters","ordinal","binary","maskedBits","format-double"}; verif::cls(kn[kind]); }
         slot_ops[i]++;
         if (slot_ops[i] >= 3) nontrivial = true;
         if (verif::g_explain) fprintf(stderr, "  %s m[i]=\"%s\" m[j]=\"%s\"\n", ctx.c_str(), verif::printable(m[i]).c_str(), verif::printable(m[j]).c_str());
